@@ -373,9 +373,10 @@ class Tr:
                     continue
                 lines.append(self.gap(st, "try statement"))
                 break
-            if isinstance(st, ast.For) and not st.orelse and isinstance(st.target, ast.Name) and isinstance(st.iter, ast.Name) \
-                    and self.types.get(st.iter.id) == "Matches":
+            if isinstance(st, ast.For) and not st.orelse and isinstance(st.target, ast.Name) and self.typ(st.iter) == "Matches" \
+                    and (isinstance(st.iter, ast.Call) or (isinstance(st.iter, ast.Name) and st.iter.id in self.types)):
                 mo = st.target.id
+                iter_src = self.expr(st.iter)
                 state = [v for v in dict.fromkeys(self.assigned(st.body)) if v in self.types]
                 if not state or any(self.types[v] not in ("Str", "Nat") for v in state):
                     lines.append(self.gap(st, "loop state"))
@@ -389,7 +390,7 @@ class Tr:
                 body = inner.block(st.body, ind + 6, final="(" + ", ".join(state) + ")")
                 self.gaps += inner.gaps
                 lines.append("let st := %s.foldl (fun (st : %s) (%s : Nat × Nat) =>\n%s    %s;\n%s    %s) (%s)" % (
-                    st.iter.id, sty, mo, pad, "; ".join(body_lines), pad, body, ", ".join(state)))
+                    iter_src, sty, mo, pad, "; ".join(body_lines), pad, body, ", ".join(state)))
                 for i, v in enumerate(state):
                     lines.append("let %s := %s" % (v, proj(i)))
                 k += 1
@@ -403,6 +404,219 @@ class Tr:
                 lines.append(final)
             return "(" + sep.join(lines) + ")"
         return sep.join(lines)
+
+
+# ---------------------------------------------------------------------------------------------------------------------
+# Normalisation: equivalent surface shapes of one statement are mapped to ONE canonical shape before translation, so that
+# behaviour-preserving rewrites of the source give byte-identical Lean definitions.  Every rule is semantics-preserving
+# for ALL inputs (reason given at the rule); whatever is not recognised is left alone and refused by the translator.
+def _is_str_const(n):
+    return isinstance(n, ast.Constant) and isinstance(n.value, str)
+
+
+def _fmt_of_joinedstr(n):
+    """f'pre{x}post' -> ('pre%spost', x): an f-string whose only replacement field has no conversion and no format spec
+    formats x with format(x, '') = str(x) for a str x -- what '%s' % x gives (x is typed Str by the translator; any other
+    type is refused there).  Literal parts containing '%' would need escaping: not normalised."""
+    fields = [v for v in n.values if isinstance(v, ast.FormattedValue)]
+    if len(fields) != 1 or fields[0].conversion != -1 or fields[0].format_spec is not None:
+        return None
+    lits = []
+    for v in n.values:
+        if isinstance(v, ast.FormattedValue):
+            lits.append("%s")
+        elif _is_str_const(v) and "%" not in v.value:
+            lits.append(v.value)
+        else:
+            return None
+    return "".join(lits), fields[0].value
+
+
+class _Expr(ast.NodeTransformer):
+    """expression-level rules"""
+
+    def visit_Assign(self, n):
+        # x = x + E  ->  x += E   (x a str: immutable, so rebinding and in-place addition coincide; `+=` on anything but a
+        # Str-typed variable is refused by the translator)
+        if (len(n.targets) == 1 and isinstance(n.targets[0], ast.Name) and isinstance(n.value, ast.BinOp)
+                and isinstance(n.value.op, ast.Add) and isinstance(n.value.left, ast.Name)
+                and n.value.left.id == n.targets[0].id):
+            rhs = self.visit(n.value.right)
+            return ast.copy_location(ast.AugAssign(ast.Name(n.targets[0].id, ast.Store()), ast.Add(), rhs), n)
+        self.generic_visit(n)
+        return n
+
+    def visit_JoinedStr(self, n):
+        self.generic_visit(n)
+        r = _fmt_of_joinedstr(n)
+        if r is None:
+            return n
+        return ast.copy_location(ast.BinOp(ast.Constant(r[0]), ast.Mod(), r[1]), n)
+
+    def visit_Call(self, n):
+        self.generic_visit(n)
+        # 'pre{}post'.format(x) = 'pre%spost' % x for a str x (one anonymous field, no other braces / percent signs)
+        if (isinstance(n.func, ast.Attribute) and n.func.attr == "format" and _is_str_const(n.func.value)
+                and len(n.args) == 1 and not n.keywords):
+            f = n.func.value.value
+            if f.count("{}") == 1 and "%" not in f and "{" not in f.replace("{}", "") and "}" not in f.replace("{}", ""):
+                return ast.copy_location(ast.BinOp(ast.Constant(f.replace("{}", "%s")), ast.Mod(), n.args[0]), n)
+        return n
+
+    def visit_BinOp(self, n):
+        # 'pre' + x + 'post'  (x a name)  =  'pre%spost' % x  for a str x: concatenation of the same three pieces.  The whole
+        # chain of additions is looked at before its parts are rewritten.
+        if isinstance(n.op, ast.Add):
+            parts = []
+
+            def flat(e):
+                if isinstance(e, ast.BinOp) and isinstance(e.op, ast.Add):
+                    flat(e.left)
+                    flat(e.right)
+                else:
+                    parts.append(e)
+            flat(n)
+            dyn = [q for q in parts if not _is_str_const(q)]
+            if (len(dyn) == 1 and len(parts) >= 2 and isinstance(dyn[0], ast.Name)
+                    and all("%" not in q.value for q in parts if _is_str_const(q))):
+                f = "".join("%s" if q is dyn[0] else q.value for q in parts)
+                return ast.copy_location(ast.BinOp(ast.Constant(f), ast.Mod(), dyn[0]), n)
+        self.generic_visit(n)
+        return n
+
+    def visit_UnaryOp(self, n):
+        self.generic_visit(n)
+        # not (a in b) = a not in b ; not (a not in b) = a in b ; not (a == b) = a != b ; not not x is NOT x (only truthiness)
+        if isinstance(n.op, ast.Not) and isinstance(n.operand, ast.Compare) and len(n.operand.ops) == 1:
+            flip = {ast.In: ast.NotIn, ast.NotIn: ast.In, ast.Eq: ast.NotEq, ast.NotEq: ast.Eq, ast.Is: ast.IsNot, ast.IsNot: ast.Is}
+            t = type(n.operand.ops[0])
+            if t in flip and t in (ast.In, ast.NotIn, ast.Is, ast.IsNot):      # ==/!= only for str operands: left alone
+                return ast.copy_location(ast.Compare(n.operand.left, [flip[t]()], n.operand.comparators), n)
+        return n
+
+
+def _ends_flow(stmts):
+    return bool(stmts) and isinstance(stmts[-1], (ast.Return, ast.Raise, ast.Continue, ast.Break))
+
+
+def _negated(test):
+    if isinstance(test, ast.UnaryOp) and isinstance(test.op, ast.Not):
+        return test.operand
+    if isinstance(test, ast.Compare) and len(test.ops) == 1 and isinstance(test.ops[0], ast.NotIn):
+        return ast.Compare(test.left, [ast.In()], test.comparators)
+    return None
+
+
+def _uses(name, nodes):
+    return sum(1 for n in nodes for x in ast.walk(n) if isinstance(x, ast.Name) and x.id == name)
+
+
+def _norm_block(stmts, is_coerce):
+    out = []
+    for st in stmts:
+        # x = A if c else B   ->   if c: x = A  else: x = B     (same evaluation: c first, then exactly one of A / B);
+        # the str-coercion idiom written as a conditional expression is an expression-level idiom and is kept
+        if (isinstance(st, ast.Assign) and len(st.targets) == 1 and isinstance(st.targets[0], ast.Name)
+                and isinstance(st.value, ast.IfExp) and is_coerce(st.value) is None):
+            t = st.targets[0]
+            st = ast.copy_location(ast.If(st.value.test, [ast.copy_location(ast.Assign([t], st.value.body), st)],
+                                          [ast.copy_location(ast.Assign([t], st.value.orelse), st)]), st)
+        if isinstance(st, ast.If):
+            st.body = _norm_block(st.body, is_coerce)
+            st.orelse = _norm_block(st.orelse, is_coerce)
+            # else: after a branch that always returns / raises / continues / breaks  ->  no else (the else part runs
+            # exactly when the test is false, which is when control reaches the statement after the if)
+            if st.orelse and _ends_flow(st.body):
+                tail = st.orelse
+                st = ast.copy_location(ast.If(st.test, st.body, []), st)
+                out.append(st)
+                out.extend(tail)
+                continue
+            # if not C: A else: B  ->  if C: B else: A     (both branches present: the same branch runs for every input)
+            neg = _negated(st.test)
+            if neg is not None and st.orelse:
+                st = ast.copy_location(ast.If(neg, st.orelse, st.body), st)
+        elif isinstance(st, (ast.For, ast.While)):
+            st.body = _norm_block(st.body, is_coerce)
+        elif isinstance(st, ast.Try):
+            st.body = _norm_block(st.body, is_coerce)
+            for h in st.handlers:
+                h.body = _norm_block(h.body, is_coerce)
+        out.append(st)
+    # a single-use local inlined into the statement that follows its assignment:
+    #   x = E; return x      ->  return E            (x is dead after the return)
+    #   x = E; for v in x:   ->  for v in E:         (E is evaluated once, immediately before the loop, either way; x is not
+    #                                                 used in the loop body or afterwards)
+    k = 0
+    res = []
+    while k < len(out):
+        st = out[k]
+        nxt = out[k + 1] if k + 1 < len(out) else None
+        if isinstance(st, ast.Assign) and len(st.targets) == 1 and isinstance(st.targets[0], ast.Name) and nxt is not None:
+            x = st.targets[0].id
+            if isinstance(nxt, ast.Return) and isinstance(nxt.value, ast.Name) and nxt.value.id == x:
+                res.append(ast.copy_location(ast.Return(st.value), nxt))
+                k += 2
+                continue
+            if (isinstance(nxt, ast.For) and isinstance(nxt.iter, ast.Name) and nxt.iter.id == x
+                    and _uses(x, nxt.body + nxt.orelse + out[k + 2:]) == 0):
+                nxt.iter = st.value
+                res.append(nxt)
+                k += 2
+                continue
+        res.append(st)
+        k += 1
+    return res
+
+
+class _Rename(ast.NodeTransformer):
+    def __init__(self, m):
+        self.m = m
+
+    def visit_Name(self, n):
+        if n.id in self.m:
+            return ast.copy_location(ast.Name(self.m[n.id], n.ctx), n)
+        return n
+
+
+def normalise(fn, keep):
+    """-> normalised copy of the function body.  Last step: alpha renaming of the LOCAL variables (every name the body
+    binds by assignment or as a loop variable, except the parameters) to x1, x2, ... in order of first binding -- locals are
+    invisible outside the function, so their names carry no behaviour."""
+    import copy
+    fn = copy.deepcopy(fn)
+    fn = ast.fix_missing_locations(_Expr().visit(fn))
+    probe = Tr("quote_xml", {})
+    body = _norm_block(fn.body, probe.is_coerce)
+    order = []
+    params = {a.arg for a in fn.args.args}
+
+    def bind(nodes):
+        for st in nodes:
+            for x in ast.walk(st):
+                if isinstance(x, ast.Name) and isinstance(x.ctx, ast.Store) and x.id not in params and x.id not in order:
+                    order.append(x.id)
+    # first-binding order = source order of Store contexts (ast.walk is breadth-first: walk statements one by one)
+    def walk(nodes):
+        for st in nodes:
+            if isinstance(st, (ast.Assign, ast.AugAssign)):
+                bind([st])
+            elif isinstance(st, ast.For):
+                bind([st.target])
+                walk(st.body)
+            elif isinstance(st, ast.If):
+                walk(st.body)
+                walk(st.orelse)
+            elif isinstance(st, ast.Try):
+                walk(st.body)
+                for h in st.handlers:
+                    walk(h.body)
+            elif isinstance(st, ast.While):
+                walk(st.body)
+    walk(body)
+    m = {v: "x%d" % (i + 1) for i, v in enumerate(order)}
+    fn.body = [ast.fix_missing_locations(_Rename(m).visit(st)) for st in body]
+    return fn
 
 
 def find_functions(tree):
@@ -450,7 +664,7 @@ def translate(repo):
         if par not in params or any(p not in IGNORED_PARAMS for p in others) or fn.args.vararg or fn.args.kwarg or fn.args.kwonlyargs:
             gaps.append("nml.py:%d %s: unexpected parameter list %s" % (fn.lineno, name, params))
         tr = Tr(name, {par: pty})
-        body = tr.block(fn.body, 2)
+        body = tr.block(normalise(fn, par).body, 2)
         gaps += tr.gaps
         if name in ("gds_format_float", "gds_format_double"):
             ds = getattr(tr, "dicts", [])
@@ -462,7 +676,7 @@ def translate(repo):
                 shapes[name] = "other"
                 gaps.append("nml.py:%d %s: unexpected spelling table %r" % (fn.lineno, name, ds))
         head = "def %s (%s : %s) : %s :=%s" % (name, par, pty, ("Option %s" % rty) if opt else rty, " do" if opt else "")
-        defs.append("/-- nml.py:%d -/\n%s\n  %s" % (fn.lineno, head, body))
+        defs.append("/-- translated from `%s` in nml.py -/\n%s\n  %s" % (name, head, body))
     if len(set(shapes.values())) > 1:
         gaps.append("nml.py: gds_format_float and gds_format_double spell non-finite values differently: %r" % (shapes,))
     xsd = bool(shapes) and all(v == "xsd-spelling" for v in shapes.values())
